@@ -4,14 +4,17 @@
    Proved here: the two passes agree on every type-checked operation's expansion length (the
    obligation whose failure shifts every later label), relative label branches are accepted exactly
    when the distance fits and then carry it, and each data statement advances the data counter by
-   its cell count.  The whole-program layout statement (each label = index of the next emitted
-   instruction) is decided by the correspondence + oracle of this check, not yet by a theorem:
-   this property is therefore claimed as PARTIAL proof (see DESIGN.md). *)
+   its cell count; and, over whole programs: the two passes stay in lockstep (C04_lockstep), the
+   program counter of convert_ops is the number of instructions emitted so far, and therefore every
+   label of an accepted program denotes the index of the next emitted instruction, in every mode
+   (C04_layout).  Still decided by the correspondence + oracle only: persistence of a label's
+   entry in the final symbol table (no later redeclaration) and the data-label layout over whole
+   programs (PARTIAL). *)
 From Coq Require Import ZArith List Bool String.
 From Hera.Lib Require Import Py.
 From Hera.Gen Require Import Ops Tables Convert.
 From Hera.Model Require Import OpRep Bitvec Preproc.
-From Hera.Proofs Require Import C04_Oplen.
+From Hera.Proofs Require Import C04_Oplen C04_Layout.
 Import ListNotations.
 Open Scope Z_scope.
 
@@ -50,3 +53,33 @@ Theorem C04_data_layout_partial :
      dict_get (gl_st (get_labels_step c g (mkop O_DLABEL [tok_sym name]))) name = Some (SDataLabel (gl_dc g))).
 Proof. exact (conj gl_INTEGER (conj gl_LP_STRING (conj gl_DSKIP gl_DLABEL))). Qed.
 Print Assumptions C04_data_layout_partial.
+
+(* ---- whole programs -------------------------------------------------------------------------------------- *)
+(* a program whose type-check reports no error consists of operations that are individually clean *)
+Theorem C04_accepted_is_clean : forall c ops st msgs, typecheck c ops = (st, msgs) -> has_errors msgs = false ->
+  Forall clean_op ops.
+Proof. exact accepted_is_clean. Qed.
+Print Assumptions C04_accepted_is_clean.
+
+(* after any program, the counter get_labels reached = the counter convert_ops reached *)
+Theorem C04_lockstep : forall c st ops, Forall clean_op ops -> forall i g cg cgf,
+  gl_pc g = cv_pc cg ->
+  fold_left (convert_step st) (srcs c ops i) (Ok cg) = Ok cgf ->
+  gl_pc (fold_left (get_labels_step c) ops g) = cv_pc cgf.
+Proof. exact lockstep. Qed.
+Print Assumptions C04_lockstep.
+
+(* every label is the index of the next emitted instruction: the instructions emitted for the
+   operations before the label are a prefix of the output, and the label's value is their number
+   (data statements and, in assemble / preprocess mode, debugging operations do not count) *)
+Theorem C04_layout : forall c st ops pre name post cgf,
+  ops = pre ++ mkop O_LABEL [tok_sym name] :: post ->
+  Forall clean_op ops ->
+  fold_left (convert_step st) (srcs c ops 0) (Ok (mkcv [] 0 [])) = Ok cgf ->
+  exists cgp, fold_left (convert_step st) (srcs c pre 0) (Ok (mkcv [] 0 [])) = Ok cgp /\
+    (exists rest, cv_out cgf = cv_out cgp ++ rest) /\
+    let g := fold_left (get_labels_step c) pre (mkgl [] [] 0 (cs_data_start c) []) in
+    dict_get (gl_st (get_labels_step c g (mkop O_LABEL [tok_sym name]))) name
+    = Some (SLabel (Z.of_nat (List.length (filter code_cop (cv_out cgp))))).
+Proof. exact layout. Qed.
+Print Assumptions C04_layout.
